@@ -285,8 +285,9 @@ theorem encryptSubject_eq (h : Hash) (A : Aead) (k n : Bytes) {e : Env} (hi : In
       | none => .ok (encryptSubjectSpec A k n e) := by
   cases e with
   | node s as d =>
-    simp only [Env.subject, Env.digest] at hv
-    simp only [encryptSubject, encryptRefusal]
+    simp only [Env.subject] at hv
+    unfold encryptSubject
+    simp only [encryptRefusal]
     by_cases hs : s.isEncrypted = true
     · simp only [hs, if_true]
     · simp only [hs, Bool.false_eq_true, if_false,
@@ -294,28 +295,33 @@ theorem encryptSubject_eq (h : Hash) (A : Aead) (k n : Bytes) {e : Env} (hi : In
       rw [rebuild_node h (s' := .encrypted (encryptWithDigest A k n (encode s) s.digest) s.digest)
         hi rfl]
       simp only [Env.digest, beq_self_eq_true, if_true, encryptSubjectSpec, encSubj]
-  | encrypted m d => simp only [encryptSubject, encryptRefusal]
-  | elided d => simp only [encryptSubject, encryptRefusal]
+  | encrypted m d => unfold encryptSubject; simp only [encryptRefusal]
+  | elided d => unfold encryptSubject; simp only [encryptRefusal]
   | leaf c d =>
     simp only [Env.subject, Env.digest] at hv
-    simp only [encryptSubject, encryptRefusal, newEncryptedUnwrap_encryptWithDigest A k n _ hv,
-      Env.digest, beq_self_eq_true, if_true, encryptSubjectSpec, encSubj]
+    unfold encryptSubject
+    simp only [encryptRefusal, Env.digest, newEncryptedUnwrap_encryptWithDigest A k n _ hv,
+      beq_self_eq_true, if_true, encryptSubjectSpec, encSubj]
   | wrapped x d =>
     simp only [Env.subject, Env.digest] at hv
-    simp only [encryptSubject, encryptRefusal, newEncryptedUnwrap_encryptWithDigest A k n _ hv,
-      Env.digest, beq_self_eq_true, if_true, encryptSubjectSpec, encSubj]
+    unfold encryptSubject
+    simp only [encryptRefusal, Env.digest, newEncryptedUnwrap_encryptWithDigest A k n _ hv,
+      beq_self_eq_true, if_true, encryptSubjectSpec, encSubj]
   | assertion p o d =>
     simp only [Env.subject, Env.digest] at hv
-    simp only [encryptSubject, encryptRefusal, newEncryptedUnwrap_encryptWithDigest A k n _ hv,
-      Env.digest, beq_self_eq_true, if_true, encryptSubjectSpec, encSubj]
+    unfold encryptSubject
+    simp only [encryptRefusal, Env.digest, newEncryptedUnwrap_encryptWithDigest A k n _ hv,
+      beq_self_eq_true, if_true, encryptSubjectSpec, encSubj]
   | knownValue v d =>
     simp only [Env.subject, Env.digest] at hv
-    simp only [encryptSubject, encryptRefusal, newEncryptedUnwrap_encryptWithDigest A k n _ hv,
-      Env.digest, beq_self_eq_true, if_true, encryptSubjectSpec, encSubj]
+    unfold encryptSubject
+    simp only [encryptRefusal, Env.digest, newEncryptedUnwrap_encryptWithDigest A k n _ hv,
+      beq_self_eq_true, if_true, encryptSubjectSpec, encSubj]
   | compressed c d =>
     simp only [Env.subject, Env.digest] at hv
-    simp only [encryptSubject, encryptRefusal, newEncryptedUnwrap_encryptWithDigest A k n _ hv,
-      Env.digest, beq_self_eq_true, if_true, encryptSubjectSpec, encSubj]
+    unfold encryptSubject
+    simp only [encryptRefusal, Env.digest, newEncryptedUnwrap_encryptWithDigest A k n _ hv,
+      beq_self_eq_true, if_true, encryptSubjectSpec, encSubj]
 
 theorem encryptRefusal_eq_none {e : Env} :
     encryptRefusal e = none ↔ e.subject.isEncrypted = false ∧ e.isElided = false := by
